@@ -39,3 +39,81 @@ Theorem C09_sink_determined : forall evs sk sk' cv,
   src_ok evs -> sink_sem evs noX sk cv -> sink_sem evs noX sk' cv -> Permutation sk sk'.
 Proof. exact sink_sem_unique. Qed.
 Print Assumptions C09_sink_determined.
+
+(* ---------- mask sources: cached(T) for T a mask (~x, flatten, plain patterns) — the covered
+   time is identical (Proofs/CacheMask.v) ---------- *)
+From CG Require Import Proofs.CacheMask.
+
+(* For EVERY history (queries, clock advances, source mutations), ANY source events — overlapping,
+   nested, duplicated, unbounded, even empty or reversed — every bounded query of a masked cache
+   covers, inside its window, exactly the time the source covers; every returned fragment is a
+   positive-length finite interval meeting the window and lying inside source coverage; the
+   result is ordered (either direction). *)
+Theorem C09_mask_observational : forall evs ttl tick t0 ops v a b rv s' out log,
+  ttl > 0 -> tick >= 0 -> Forall op_ok ops ->
+  NEG_INF < a -> a < b -> b < POS_INF ->
+  let s := r_state (crun_all true ttl tick t0 evs ops) in
+  cquery true ttl tick (src_of evs v) s a b rv = (s', out, log) ->
+  (forall t, a <= t < b -> covers out t = covers evs t) /\
+  (forall f, In f out -> mfrag_ok f /\ fstart f <= b /\ a < fend f /\
+                         forall t, inside f t = true -> covers evs t = true) /\
+  sorted_le (if rv then key_ge else key_le) out.
+Proof. exact CacheMask.C09_mask_observational. Qed.
+Print Assumptions C09_mask_observational.
+
+(* ... every output of every history *)
+Theorem C09_mask_all_outputs : forall evs ttl tick t0 ops,
+  ttl > 0 -> tick >= 0 -> Forall op_ok ops ->
+  Forall2 (c09m_result (covers evs)) (queries ops) (r_outs (crun_all true ttl tick t0 evs ops)).
+Proof. exact CacheMask.C09_mask_all_outputs. Qed.
+Print Assumptions C09_mask_all_outputs.
+
+(* the invariant behind it: the sink covers exactly source AND cached segments, each fragment
+   inside one segment (masks are never stitched) *)
+Theorem C09_mask_invariant : forall evs ttl tick t0 ops,
+  ttl > 0 -> tick >= 0 -> Forall op_ok ops ->
+  mask_inv (covers evs) (r_state (crun_all true ttl tick t0 evs ops)).
+Proof. exact mask_inv_reachable. Qed.
+Print Assumptions C09_mask_invariant.
+
+(* the sink is exactly the source clipped to each cached segment separately *)
+Theorem C09_mask_sink_exact : forall evs ttl tick t0 ops,
+  ttl > 0 -> tick >= 0 -> Forall op_ok ops ->
+  let r := crun_all true ttl tick t0 evs ops in
+  sorted_key (sink (r_state r)) = true /\
+  exists ver, (forall c, In c (cover (r_state r)) -> (ver c <= r_ver r)%N) /\
+    Permutation (sink (r_state r)) (flat_map (seg_of evs ver) (cover (r_state r))).
+Proof. exact mask_sink_exact. Qed.
+Print Assumptions C09_mask_sink_exact.
+
+(* the oracle the check applies to the implementation's masked-cache outputs is a theorem of
+   the model *)
+Theorem C09_mask_oracle_holds_of_model : forall evs ttl tick t0 ops v a b rv s' out log,
+  ttl > 0 -> tick >= 0 -> Forall op_ok ops ->
+  NEG_INF < a -> a < b -> b < POS_INF ->
+  cquery true ttl tick (src_of evs v) (r_state (crun_all true ttl tick t0 evs ops)) a b rv = (s', out, log) ->
+  CacheChk.c09_one true evs (a, b, rv, v) out = true.
+Proof. exact CacheMask.C09_mask_oracle. Qed.
+Print Assumptions C09_mask_oracle_holds_of_model.
+
+(* cached(~T): the complement of a well-formed source through a masked cache *)
+Theorem C09_mask_complement : forall evs ttl tick t0 ops a b rv s' out log,
+  Forall wf_ivl evs -> ttl > 0 -> tick >= 0 -> Forall op_ok ops ->
+  NEG_INF < a -> a < b -> b < POS_INF ->
+  cquery true ttl tick (src_compl evs) (grun ttl tick t0 (src_compl evs) ops) a b rv = (s', out, log) ->
+  forall t, a <= t < b -> covers out t = negb (covers evs t).
+Proof. exact CacheMask.C09_mask_complement. Qed.
+Print Assumptions C09_mask_complement.
+
+(* what is NOT true of masked caches (and is not claimed by the property): fragments are served
+   unclipped from the sink (the slice clips them afterwards), and events are fractured at
+   segment edges *)
+Theorem C09_mask_clipped_refuted :
+  exists evs ttl tick t0 ops a b rv s' out log,
+    ttl > 0 /\ tick >= 0 /\ Forall op_ok ops /\ NEG_INF < a /\ a < b /\ b < POS_INF /\
+    cquery true ttl tick (src_of evs 0) (r_state (crun_all true ttl tick t0 evs ops)) a b rv = (s', out, log) /\
+    exists f, In f out /\ ~ (a <= fstart f /\ fend f <= b).
+Proof. exact CacheMask.C09_mask_clipped_refuted. Qed.
+Print Assumptions C09_mask_clipped_refuted.
+
+Example C09_mask_nonvacuous : _ := CacheMask.mx_c09.
